@@ -6,3 +6,4 @@ import Peppi.Props.C11
 #print axioms Peppi.Props.C11.formatHash_prefix
 #print axioms Peppi.Props.C11.hexN_lower
 #print axioms Peppi.Props.C11.formatHash_inj
+#print axioms Peppi.Props.C11.C11_range_any
